@@ -16,65 +16,61 @@ theorem src_equals_impl (h : equals_impl_available = true) (G : Globals) (fuel :
     equals_impl G (fuel + 1) (.obj c fs) y = equalsSpec (eqD G fuel) c fs y := by
   first
   | exact absurd h (by decide)
-  | skip
-  rw [equals_impl]
-  simp only [ok_bind, pure_eq_ok, truthy_bool, equalsSpec]
-  by_cases hi : isInstanceTypeOf y (.obj c fs) = true
-  · simp only [hi, Bool.not_true, Bool.false_eq_true, if_false, if_true, pyObjDict]
-    by_cases hp : (fs.any fun f => pseudoField f.1) = true
-    · simp only [hp, if_true, throw_eq_error, error_bind]
-    · simp only [hp, Bool.false_eq_true, if_false, pure_eq_ok, ok_bind, pyKeys, pyIter_list, List.map_map]
-      refine (forIn_all_k (fun kv : String × PVal => PVal.str kv.1.toList) fs _ (fieldTest (eqD G fuel) (.obj c fs) y)
-        (PVal.bool false) _ ?h0 ?step _ (fun o => match o with | some r => .ok r | none => .ok (.bool true)) ?hk).trans ?fin
-      case h0 => rfl
-      case hk => intro s; obtain ⟨s1, s2⟩ := s; cases s1 <;> rfl
-      case step =>
-        intro kv _ s hs
-        obtain ⟨s1, s2⟩ := s
-        simp only at hs; subst hs
-        simp only [fieldTest]
-        cases pyGetAttrD (.obj c fs) (.str kv.1.toList) .none with
-        | error e => rfl
-        | ok a =>
-          cases pyGetAttrD y (.str kv.1.toList) .none with
-          | error e => rfl
-          | ok b =>
-            simp only [ok_bind, pyEqDeep]
-            cases pyEqWith (eqD G fuel) a b with
-            | error e => rfl
-            | ok r => cases r <;> simp
-      case fin =>
-        cases allOk (fieldTest (eqD G fuel) (.obj c fs) y) fs with
-        | error e => rfl
-        | ok b => cases b <;> rfl
-  · simp only [hi, Bool.false_eq_true, if_false, Bool.not_false, if_true]
+  | (rw [equals_impl]
+     simp only [ok_bind, pure_eq_ok, truthy_bool, equalsSpec]
+     by_cases hi : isInstanceTypeOf y (.obj c fs) = true
+     · simp only [hi, Bool.not_true, Bool.false_eq_true, if_false, if_true, pyObjDict]
+       by_cases hp : (fs.any fun f => pseudoField f.1) = true
+       · simp only [hp, if_true, throw_eq_error, error_bind]
+       · simp only [hp, Bool.false_eq_true, if_false, pure_eq_ok, ok_bind, pyKeys, pyIter_list, List.map_map]
+         refine (forIn_all_k (fun kv : String × PVal => PVal.str kv.1.toList) fs _ (fieldTest (eqD G fuel) (.obj c fs) y)
+           (PVal.bool false) _ ?h0 ?step _ (fun o => match o with | some r => .ok r | none => .ok (.bool true)) ?hk).trans ?fin
+         case h0 => rfl
+         case hk => intro s; obtain ⟨s1, s2⟩ := s; cases s1 <;> rfl
+         case step =>
+           intro kv _ s hs
+           obtain ⟨s1, s2⟩ := s
+           simp only at hs; subst hs
+           simp only [fieldTest]
+           cases pyGetAttrD (.obj c fs) (.str kv.1.toList) .none with
+           | error e => rfl
+           | ok a =>
+             cases pyGetAttrD y (.str kv.1.toList) .none with
+             | error e => rfl
+             | ok b =>
+               simp only [ok_bind, pyEqDeep]
+               cases pyEqWith (eqD G fuel) a b with
+               | error e => rfl
+               | ok r => cases r <;> simp
+         case fin =>
+           cases allOk (fieldTest (eqD G fuel) (.obj c fs) y) fs with
+           | error e => rfl
+           | ok b => cases b <;> rfl
+     · simp only [hi, Bool.false_eq_true, if_false, Bool.not_false, if_true])
 
 /-- `Tag.__eq__` as the source has it is `_equals_impl(self, other)` -/
 theorem src_Tag_eq_def (h : Tag_eq_available = true) (G : Globals) (fuel : Nat) (x y : PVal) :
     Tag_eq G (fuel + 1) x y = equals_impl G fuel x y := by
   first
   | exact absurd h (by decide)
-  | skip
-  rw [Tag_eq]
-  all_goals (simp only [pure_eq_ok]; cases equals_impl G fuel x y <;> rfl)
+  | (rw [Tag_eq]
+     all_goals (simp only [pure_eq_ok]; cases equals_impl G fuel x y <;> rfl))
 
 /-- `TagList.__eq__` as the source has it is `_equals_impl(self, other)` -/
 theorem src_TagList_eq_def (h : TagList_eq_available = true) (G : Globals) (fuel : Nat) (x y : PVal) :
     TagList_eq G (fuel + 1) x y = equals_impl G fuel x y := by
   first
   | exact absurd h (by decide)
-  | skip
-  rw [TagList_eq]
-  all_goals (simp only [pure_eq_ok]; cases equals_impl G fuel x y <;> rfl)
+  | (rw [TagList_eq]
+     all_goals (simp only [pure_eq_ok]; cases equals_impl G fuel x y <;> rfl))
 
 /-- `HTMLDependency.__eq__` as the source has it is `_equals_impl(self, other)` -/
 theorem src_HTMLDependency_eq_def (h : HTMLDependency_eq_available = true) (G : Globals) (fuel : Nat) (x y : PVal) :
     HTMLDependency_eq G (fuel + 1) x y = equals_impl G fuel x y := by
   first
   | exact absurd h (by decide)
-  | skip
-  rw [HTMLDependency_eq]
-  all_goals (simp only [pure_eq_ok]; cases equals_impl G fuel x y <;> rfl)
+  | (rw [HTMLDependency_eq]
+     all_goals (simp only [pure_eq_ok]; cases equals_impl G fuel x y <;> rfl))
 
 /-- availability of the whole group -/
 structure EqAvail : Prop where
